@@ -89,6 +89,20 @@ extern size_t g_k; /* ghost byte index */
 
 /* weakest precondition of the code: m_bit_count + count <= 63 (flush_bits shifts by the flushed bit
  * count, which would be 64).  MAX_BITBUF_BIT_WRITE = 56 with m_bit_count < 8 is the documented instance. */
+/* DF_WB_COARSE (harnesses that use write_bits through --replace-call-with-contract and state nothing
+ * about output *bytes*): the proved contract minus its byte clause; the eight output bytes are not in the
+ * frame of this abstraction, but that they exist and are writable stays a precondition checked at
+ * every call site (is_fresh(m_out_buf, 8)), as does "the bits fit". */
+#ifdef DF_WB_COARSE
+#define C_write_bits                                                                               \
+        __CPROVER_requires(__CPROVER_is_fresh(me, sizeof(*me)))                                    \
+        __CPROVER_requires(me->m_bit_count <= 63 && count <= 63 - me->m_bit_count)                 \
+        __CPROVER_requires(__CPROVER_is_fresh(me->m_out_buf, 8))                                   \
+        __CPROVER_assigns(me->m_bits, me->m_bit_count, me->m_out_buf)                              \
+        __CPROVER_ensures(me->m_out_buf == BB_OUT + BBN / 8)                                       \
+        __CPROVER_ensures(me->m_bit_count == BBN % 8)                                              \
+        __CPROVER_ensures(me->m_out_start == OLD(me->m_out_start) && me->m_out_end == OLD(me->m_out_end))
+#else
 #define C_write_bits                                                                               \
         __CPROVER_requires(__CPROVER_is_fresh(me, sizeof(*me)))                                    \
         __CPROVER_requires(g_k < 8)            \
@@ -102,7 +116,13 @@ extern size_t g_k; /* ghost byte index */
         __CPROVER_ensures(g_k < BBN / 8 ==> BB_OUT[g_k] == BYTE(BBV, g_k))                         \
         __CPROVER_ensures(me->m_bit_count == BBN % 8 && me->m_bits == (BBV >> (8 * (BBN / 8))))    \
         __CPROVER_ensures(BB_WF(*me))
+#endif
 
+/* the same precondition as an assertion at the entry of the body: wherever write_bits is inlined into a
+ * function under contract (all of igzip.c), "the bits fit" becomes an obligation of that call site */
+#define E_write_bits                                                                               \
+        __CPROVER_assert(me->m_bit_count <= 63 && count <= 63 - me->m_bit_count,                   \
+                         "write_bits call site: pending bits + count <= 63 (no bits are lost)");
 #define C_flush_bits                                                                               \
         __CPROVER_requires(__CPROVER_is_fresh(me, sizeof(*me)))                                    \
         __CPROVER_requires(g_k < 8)                                                  \
@@ -650,7 +670,11 @@ extern uint64_t w_bits;
  * where completing the block clears the history (reset_match_history), table = state.head or, with
  * -DDF_LVLN, level_buf */
 #if defined(DF_SB_FF)
-#define SB_EXP __CPROVER_requires(stream->flush == FULL_FLUSH && RMH_MASK_OK) LB_PRE
+/* level 3 keeps pointers to its match queue inside level_buf; that case is not covered */
+#define SB_EXP __CPROVER_requires(stream->flush == FULL_FLUSH && RMH_MASK_OK && stream->level != 3) LB_PRE
+#elif defined(DF_SB_BOUNDED)
+/* bounded stand-in (quick tier): at most one stored block left, so the loop runs at most twice */
+#define SB_EXP __CPROVER_requires(stream->flush != FULL_FLUSH && SB_REM_NOW <= 65535u)
 #else
 #define SB_EXP __CPROVER_requires(stream->flush != FULL_FLUSH)
 #endif
@@ -661,8 +685,11 @@ extern uint64_t w_bits;
         __CPROVER_requires(ST.state == ZSTATE_TYPE0_HDR || ST.state == ZSTATE_TYPE0_BODY)          \
         __CPROVER_requires(ST.state == ZSTATE_TYPE0_HDR ==> ST.has_eob_hdr == 0)                   \
         __CPROVER_requires(ST.state == ZSTATE_TYPE0_BODY ==>                                       \
-                           (ST.count <= SB_REM_NOW && ST.has_eob_hdr <= 1 &&                       \
+                           (ST.count <= SB_REM_NOW && ST.has_eob_hdr <= 1 && BB.m_bit_count == 0 && \
                             (ST.has_eob_hdr == 1 ==> ST.count == SB_REM_NOW)))                     \
+        /* the block consists of consumed input: block_end <= total_in (so everything that is copied lies \
+         * before next_in; otherwise total_in - block_next would wrap inside the loop) */          \
+        __CPROVER_requires(SB_REM_NOW <= SB_OFF_NOW)                                               \
         __CPROVER_requires(SB_INTOT_NOW <= 0xffffffffu)                                            \
         __CPROVER_requires(__CPROVER_is_fresh(g_in, SB_INTOT_NOW))                                 \
         __CPROVER_requires(__CPROVER_pointer_in_range_dfcc(g_in, stream->next_in, g_in + SB_INTOT_NOW)) \
@@ -674,10 +701,8 @@ extern uint64_t w_bits;
 #define SB_EMPTY_IN 0
 #elif defined(DF_LVLN)
 #define SB_TABLE_FRAME ST.has_hist, __CPROVER_object_whole(stream->level_buf)
-/* level 3 keeps a queue of pending matches in level_buf; "buffers empty" includes that queue */
-#define SB_EMPTY_IN                                                                                \
-        (O_AIN == 0 && (stream->level != 3 || OLD(((struct level_buf *) stream->level_buf)->hash_map.matches_next >= \
-                                                  ((struct level_buf *) stream->level_buf)->hash_map.matches_end)))
+/* (level 3, whose "buffers empty" includes a match queue kept in level_buf, is excluded by SB_EXP) */
+#define SB_EMPTY_IN (O_AIN == 0)
 #else
 #define SB_TABLE_FRAME ST.has_hist, ST.head
 #define SB_EMPTY_IN (O_AIN == 0)
@@ -715,7 +740,8 @@ extern uint64_t w_bits;
          * of space, the whole rest is written, in exactly that many bytes */                      \
         __CPROVER_ensures((O_ST == ZSTATE_TYPE0_HDR && O_BC == 0 && SB_INTOT >= SB_REM &&          \
                            O_AVAIL >= SPEC_STORED_LEN(SB_REM)) ==>                                 \
-                          (SB_FIN_STATE && SB_ADV == SPEC_STORED_LEN(SB_REM)))
+                          (SB_FIN_STATE && SB_ADV == SPEC_STORED_LEN(SB_REM)))                     \
+        SB_POST9
 
 /* loop over the pieces.  Invariant at the head of an iteration (entry values are __CPROVER_loop_entry:
  * nothing is modified before the loop). */
@@ -724,12 +750,15 @@ extern uint64_t w_bits;
 #define LSB_D ((uint32_t) (ST.block_next - LE(ST.block_next)))
 #define LSB_ADV (LE(stream->avail_out) - stream->avail_out)
 #define LSB_INTOT ((uint64_t) (uint32_t) (stream->total_in - LE(ST.block_next)) + stream->avail_in)
+#define SB_J0 (w_nblk <= 65540 && (w_nblk >= 1 ==> (uint64_t) LSB_D >= 65535ull * (w_nblk - 1)))
+#define SB_J8                                                                                      \
+        ((LE(ST.state) == ZSTATE_TYPE0_HDR && LE(BB.m_bit_count) == 0) ==>                         \
+         ((uint64_t) LSB_D == 65535ull * w_nblk && (uint64_t) LSB_ADV == 65540ull * w_nblk))
 #define L_write_stored_block_1                                                                     \
         __CPROVER_assigns(SB_FRAME, copy_size, avail_in, block_next_offset, next_in)               \
         __CPROVER_loop_invariant(                                                                  \
                 (ST.state == ZSTATE_TYPE0_HDR || (ST.state == ZSTATE_TYPE0_BODY && w_nblk == 0)) && \
-                w_nblk <= 65540 &&                                                                 \
-                (w_nblk >= 1 ==> (uint64_t) LSB_D >= 65535ull * (w_nblk - 1)) &&                   \
+                SB_J0 &&                                                                           \
                 g_out == LE(stream->next_out) && g_av0 == LE(stream->avail_out) &&                 \
                 /* first iteration: nothing has happened */                                        \
                 (w_nblk == 0 ==>                                                                   \
@@ -738,7 +767,7 @@ extern uint64_t w_bits;
                   ST.state == LE(ST.state) && BB.m_bits == LE(BB.m_bits) &&                        \
                   BB.m_bit_count == LE(BB.m_bit_count))) &&                                        \
                 /* later iterations start at a piece boundary with an empty bit buffer */          \
-                (w_nblk >= 1 ==> (BB.m_bit_count == 0 && BB.m_bits == 0)) &&                       \
+                (w_nblk >= 1 ==> (BB.m_bit_count == 0 && BB.m_bits == 0 && LSB_D < LSB_REM0)) &&   \
                 (ST.state == ZSTATE_TYPE0_HDR ==> ST.has_eob_hdr == 0) &&                          \
                 BB_WF(BB) && ST.has_hist == LE(ST.has_hist) &&                                     \
                 /* counters */                                                                     \
@@ -748,8 +777,7 @@ extern uint64_t w_bits;
                 stream->total_out == LE(stream->total_out) + LSB_ADV &&                            \
                 LSB_D <= LSB_REM0 && LSB_D <= LSB_ADV && (uint64_t) LSB_D <= LSB_INTOT &&          \
                 /* space accounting from a byte boundary: k pieces = 65535 k data + 5 k header bytes */ \
-                ((LE(ST.state) == ZSTATE_TYPE0_HDR && LE(BB.m_bit_count) == 0) ==>                 \
-                 ((uint64_t) LSB_D == 65535ull * w_nblk && (uint64_t) LSB_ADV == 65540ull * w_nblk)))  \
+                SB_J8 && SB_J9)                                                                    \
         __CPROVER_decreases((uint32_t) (ST.block_end - ST.block_next),                             \
                             (ST.state == ZSTATE_TYPE0_BODY ? 1 : 0))
 /* Ghost statements.  Entry: snapshot of the output pointer (an assignment, so the verifier knows which
@@ -762,8 +790,51 @@ extern uint32_t g_av0;
 #define E_write_stored_block                                                                       \
         g_out = stream->next_out;                                                                  \
         g_av0 = stream->avail_out;
+/* -DDF_SB_DATA: byte-level statement.  For one ghost output position g_o (unconstrained => every position)
+ * the hook records, at the head of the iteration that is going to produce it, where that iteration starts
+ * (w_base), which input position it starts at (w_bn), whether it begins with a header (w_hdr) and the
+ * bit-buffer / space situation that determines the header's length.  Invariant / postcondition: the byte at
+ * g_o is the matching byte of that piece's RFC 1951 header (pending bits | BFINAL, zero padding, LEN, ~LEN)
+ * or the input byte at the matching offset -- i.e. the output is header || data || header || data ... */
+#ifdef DF_SB_DATA
+#define SB_RECORD                                                                                  \
+        if (g_o >= (size_t) (g_av0 - stream->avail_out)) {                                         \
+                w_base = g_av0 - stream->avail_out;                                                \
+                w_bn = ST.block_next;                                                              \
+                w_hdr = (ST.state == ZSTATE_TYPE0_HDR);                                            \
+                w_bc = BB.m_bit_count;                                                             \
+                w_bits = BB.m_bits;                                                                \
+                w_av = stream->avail_out;                                                          \
+        }
+#define W_REM ((uint32_t) (ST.block_end - w_bn))
+#define W_LEN (W_REM > 65535u ? 65535u : W_REM)
+#define W_FIN                                                                                      \
+        ((W_REM <= 65535u && stream->end_of_stream != 0 &&                                         \
+          (uint32_t) (stream->avail_in + (uint32_t) (stream->total_in - w_bn)) == W_REM) ? 1 : 0)
+#define W_HL (w_hdr ? (T0_FITS(w_bc, w_av) ? T0_HL(w_bc) : 0u) : 0u)
+#define W_REL ((uint32_t) (g_o - w_base))
+#define W_NB T0_NB(w_bc)
+#define W_HDRBYTE                                                                                  \
+        (W_REL == 0 ? (uint8_t) (w_bits | ((uint64_t) W_FIN << w_bc))                              \
+         : (W_REL < W_NB ? (uint8_t) 0                                                             \
+            : (W_REL == W_NB ? BYTE(W_LEN, 0)                                                      \
+               : (W_REL == W_NB + 1 ? BYTE(W_LEN, 1)                                               \
+                  : (W_REL == W_NB + 2 ? (uint8_t) ~BYTE(W_LEN, 0) : (uint8_t) ~BYTE(W_LEN, 1))))))
+#define W_IDX(bn0) ((uint32_t) (w_bn - (bn0)) + (W_REL - W_HL))
+#define SB_CORRECT(bn0, d)                                                                         \
+        (w_base <= g_o && w_bc < 8 &&                                                              \
+         (W_REL < W_HL ? g_out[g_o] == W_HDRBYTE                                                   \
+                       : (W_IDX(bn0) < (d) && g_out[g_o] == g_in[W_IDX(bn0)])))
+#define SB_J9 (g_o < LSB_ADV ==> SB_CORRECT(LE(ST.block_next), LSB_D))
+#define SB_POST9 __CPROVER_ensures(g_o < SB_ADV ==> SB_CORRECT(O_BN, SB_D))
+#else
+#define SB_RECORD
+#define SB_J9 1
+#define SB_POST9
+#endif
 #define H_write_stored_block_1                                                                     \
         VCANARY();                                                                                 \
+        SB_RECORD                                                                                  \
         __CPROVER_assert(stream->next_out == g_out + (g_av0 - stream->avail_out),                  \
                          "ghost re-basing of next_out is the identity");                           \
         stream->next_out = g_out + (g_av0 - stream->avail_out);                                    \
@@ -781,5 +852,396 @@ extern uint32_t g_av0;
         __CPROVER_assigns(i, __CPROVER_object_whole(hash_table))                                   \
         __CPROVER_loop_invariant(i >= 0)                                                           \
         __CPROVER_decreases((int) (hash_table_size / 2) - i)
+
+/* =====================================================================================================
+ * isal_deflate_set_hufftables (C18/C10 guard): tables may be exchanged only between blocks, i.e. in state
+ * ZSTATE_NEW_HDR (igzip_lib.h: "before compression start or after the successful completion of a
+ * SYNC_FLUSH or FULL_FLUSH"); otherwise, and for an unknown type or a NULL custom table, the stream is
+ * left unmodified and ISAL_INVALID_OPERATION is returned.
+ * ===================================================================================================== */
+#define SHT_OK                                                                                     \
+        (OLD((uint32_t) ST.state) == ZSTATE_NEW_HDR &&                                             \
+         (type == IGZIP_HUFFTABLE_DEFAULT || type == IGZIP_HUFFTABLE_STATIC ||                     \
+          (type == IGZIP_HUFFTABLE_CUSTOM && hufftables != NULL)))
+#define C_isal_deflate_set_hufftables                                                              \
+        __CPROVER_requires(__CPROVER_is_fresh(stream, sizeof(*stream)))                            \
+        __CPROVER_assigns(ST.state == ZSTATE_NEW_HDR: stream->hufftables)                          \
+        __CPROVER_ensures(RET == (SHT_OK ? COMP_OK : ISAL_INVALID_OPERATION))                      \
+        __CPROVER_ensures(!SHT_OK ==> stream->hufftables == OLD(stream->hufftables))               \
+        __CPROVER_ensures((SHT_OK && type == IGZIP_HUFFTABLE_DEFAULT) ==>                          \
+                          stream->hufftables == (struct isal_hufftables *) &hufftables_default)    \
+        __CPROVER_ensures((SHT_OK && type == IGZIP_HUFFTABLE_STATIC) ==>                           \
+                          stream->hufftables == (struct isal_hufftables *) &hufftables_static)     \
+        __CPROVER_ensures((SHT_OK && type == IGZIP_HUFFTABLE_CUSTOM) ==> stream->hufftables == hufftables)
+
+/* =====================================================================================================
+ * write_header (C07 progress contract, C01 BFINAL bookkeeping).  Emits, resumably:
+ *     pending bits padded to a byte  ||  the deflate_hdr_count whole header bytes  ||  (pending) the
+ *     extra_bits_count bits of the byte after them
+ * state.count = header bytes already emitted.  toggle_end_of_stream flips BFINAL -- the least significant
+ * bit of the first header byte (of the extra bits if there is no whole byte) -- and the flag
+ * has_eob_hdr with it.  The flag must be armed for a header that has not started (count == 0 ==>
+ * has_eob_hdr == 1: the stored header is a final-block header), so that afterwards
+ *     has_eob_hdr == BFINAL bit actually emitted.
+ * Covered case: no wrapper header pending (raw deflate, *_NO_HDR, or has_wrap_hdr set); the shared use of
+ * state.count by a pending wrapper header is not covered here (write_stream_header has its own contract).
+ * ===================================================================================================== */
+#define WH_F (O_BC != 0)                                /* pending bits must be flushed first */
+#define WH_BLOCKED (WH_F && O_AVAIL < 8)                  /* ... and cannot */
+#define WH_NF (WH_F ? 1u : 0u)
+#define WH_AV1 (O_AVAIL - WH_NF)
+#define WH_REST (deflate_hdr_count - O_CNT)
+#define WH_M (WH_REST < WH_AV1 ? WH_REST : WH_AV1)        /* header bytes emitted by this call */
+#define WH_ALL (O_CNT + WH_M == deflate_hdr_count)
+#define WH_XTRA (WH_ALL && WH_AV1 - WH_M >= 8)            /* the extra bits go into the bit buffer */
+#define WH_TGL (toggle_end_of_stream != 0)
+#define WH_FIRST_NOW (O_CNT == 0 && WH_M > 0)
+#define C_write_header                                                                             \
+        __CPROVER_requires(__CPROVER_is_fresh(stream, sizeof(*stream)))                            \
+        __CPROVER_requires(BB_WF(BB))                                                              \
+        __CPROVER_requires((stream->gzip_flag != IGZIP_GZIP && stream->gzip_flag != IGZIP_ZLIB) || \
+                           ST.has_wrap_hdr)                                                        \
+        __CPROVER_requires(deflate_hdr_count <= ISAL_DEF_MAX_HDR_SIZE && ST.count <= deflate_hdr_count) \
+        __CPROVER_requires(__CPROVER_is_fresh(deflate_hdr, deflate_hdr_count + 1))                 \
+        __CPROVER_requires(extra_bits_count < 8 &&                                                 \
+                           (deflate_hdr[deflate_hdr_count] >> extra_bits_count) == 0)              \
+        __CPROVER_requires(__CPROVER_is_fresh(stream->next_out, stream->avail_out))                \
+        /* the flag is armed for a header that has not started */                                  \
+        __CPROVER_requires(ST.count == 0 ==> ST.has_eob_hdr == 1)                                  \
+        __CPROVER_requires(ST.has_eob_hdr <= 1)                                                    \
+        __CPROVER_assigns(ST.state, stream->next_out, stream->avail_out, stream->total_out, BB,    \
+                          ST.count, ST.has_eob_hdr, __CPROVER_object_whole(stream->next_out))      \
+        __CPROVER_ensures(WH_BLOCKED ==> (ADV_IS(0) && ST.state == ZSTATE_HDR && ST.count == O_CNT && \
+                                          ST.has_eob_hdr == O_EOBH && BB.m_bits == O_BITS &&       \
+                                          BB.m_bit_count == O_BC))                                 \
+        __CPROVER_ensures(!WH_BLOCKED ==> ADV_IS(WH_NF + WH_M))                                    \
+        __CPROVER_ensures((!WH_BLOCKED && WH_F) ==> OUT0[0] == (uint8_t) O_BITS)                   \
+        /* header bytes, in order, the first one with BFINAL toggled */                            \
+        __CPROVER_ensures((!WH_BLOCKED && g_k < WH_M) ==>                                          \
+                          OUT0[WH_NF + g_k] ==                                                     \
+                                  (uint8_t) (deflate_hdr[O_CNT + g_k] ^                            \
+                                             ((WH_TGL && O_CNT == 0 && g_k == 0) ? 1 : 0)))        \
+        /* completion: extra bits pending in the bit buffer, next state, count reset */             \
+        __CPROVER_ensures((!WH_BLOCKED && WH_XTRA) ==>                                             \
+                          ((uint32_t) ST.state == next_state && ST.count == 0 &&                   \
+                           BB.m_bit_count == extra_bits_count &&                                   \
+                           BB.m_bits == ((uint64_t) deflate_hdr[deflate_hdr_count] ^               \
+                                         ((WH_TGL && deflate_hdr_count == 0) ? 1 : 0))))           \
+        __CPROVER_ensures((!WH_BLOCKED && !WH_XTRA) ==>                                            \
+                          (ST.state == ZSTATE_HDR && ST.count == O_CNT + WH_M &&                   \
+                           BB.m_bit_count == 0 && BB.m_bits == 0))                                 \
+        /* BFINAL bookkeeping: flipped exactly when the byte carrying BFINAL is handled */         \
+        __CPROVER_ensures(!WH_BLOCKED ==>                                                          \
+                          ST.has_eob_hdr ==                                                        \
+                                  (O_EOBH ^ ((WH_TGL && (WH_FIRST_NOW || (deflate_hdr_count == 0 && O_CNT == 0))) ? 1 : 0))) \
+        /* for a stored final-block header (BFINAL = 1): the flag is the BFINAL bit that went out */ \
+        __CPROVER_ensures((!WH_BLOCKED && WH_FIRST_NOW && (deflate_hdr[0] & 1) == 1) ==>           \
+                          ST.has_eob_hdr == (OUT0[WH_NF] & 1))
+
+/* =====================================================================================================
+ * isal_deflate_pass (level 0 pass; C11 "the checksum is taken over exactly the input consumed by this
+ * call", C01/C07 call-site obligations of the helpers).  write_header, sync_flush, flush_write_buffer,
+ * write_trailer, update_checksum are used through their contracts above -- so their preconditions
+ * (bit buffer well-formed, header flag armed, trailer only in ZSTATE_TRL, ...) are obligations of this
+ * function at every call site -- and the NASM kernels through the ASSUMED stubs.
+ * Covered case as for write_header: no wrapper header pending.
+ * ===================================================================================================== */
+#define HT_WF(h)                                                                                   \
+        ((h)->deflate_hdr_count < ISAL_DEF_MAX_HDR_SIZE && (h)->deflate_hdr_extra_bits < 8 &&      \
+         ((h)->deflate_hdr[(h)->deflate_hdr_count] >> (h)->deflate_hdr_extra_bits) == 0)
+#define C_isal_deflate_pass                                                                        \
+        __CPROVER_requires(__CPROVER_is_fresh(stream, sizeof(*stream)))                            \
+        __CPROVER_requires(__CPROVER_is_fresh(stream->hufftables, sizeof(struct isal_hufftables)) && \
+                           HT_WF(stream->hufftables))                                              \
+        __CPROVER_requires(__CPROVER_is_fresh(stream->next_in, stream->avail_in))                  \
+        __CPROVER_requires(__CPROVER_is_fresh(stream->next_out, stream->avail_out))                \
+        __CPROVER_requires(BB_WF(BB) && ST.has_eob_hdr <= 1)                                       \
+        __CPROVER_requires((stream->gzip_flag != IGZIP_GZIP && stream->gzip_flag != IGZIP_ZLIB) || \
+                           ST.has_wrap_hdr)                                                        \
+        __CPROVER_requires(ST.state == ZSTATE_NEW_HDR || ST.state == ZSTATE_HDR ||                 \
+                           ST.state == ZSTATE_BODY || ST.state == ZSTATE_FLUSH_READ_BUFFER ||      \
+                           ST.state == ZSTATE_SYNC_FLUSH || ST.state == ZSTATE_FLUSH_WRITE_BUFFER || \
+                           ST.state == ZSTATE_TRL)                                                 \
+        __CPROVER_requires(ST.state == ZSTATE_NEW_HDR ==> ST.count == 0)                           \
+        __CPROVER_requires(ST.state == ZSTATE_HDR ==> ST.count <= stream->hufftables->deflate_hdr_count) \
+        __CPROVER_requires((stream->gzip_flag == IGZIP_ZLIB || stream->gzip_flag == IGZIP_ZLIB_NO_HDR) ==> \
+                           (ST.crc & 0xffff) < 65521)                                              \
+        __CPROVER_assigns(stream->next_in, stream->avail_in, stream->total_in, stream->next_out,   \
+                          stream->avail_out, stream->total_out, ST.state, ST.count, ST.has_eob_hdr, \
+                          ST.has_eob, ST.has_hist, BB, ST.crc, w_crc_init, w_crc_len, w_crc_buf,   \
+                          w_crc_calls, w_ad_init, w_ad_len, w_ad_buf, w_ad_calls,                  \
+                          __CPROVER_object_whole(stream->next_out))                                \
+        /* checksum: the routine selected by the wrapper, once, over exactly what this call consumed */ \
+        __CPROVER_ensures(TR_GZ ==> (CK_CRC_CALLS == 1 && CK_AD_CALLS == 0 && w_crc_init == O_CRC && \
+                                     w_crc_buf == OLD(stream->next_in) &&                          \
+                                     w_crc_len == O_AIN - stream->avail_in && ST.crc == g_crc_ret)) \
+        __CPROVER_ensures(TR_ZL ==> (CK_CRC_CALLS == 0 && CK_AD_CALLS == 1 &&                      \
+                                     w_ad_buf == OLD(stream->next_in) &&                           \
+                                     w_ad_len == O_AIN - stream->avail_in &&                       \
+                                     w_ad_init == SPEC_ADLER_FIN(O_CRC)))                          \
+        __CPROVER_ensures((!TR_GZ && !TR_ZL) ==> (CK_CRC_CALLS == 0 && CK_AD_CALLS == 0))          \
+        /* counters only move forwards, together */                                                \
+        __CPROVER_ensures(stream->avail_in <= O_AIN &&                                             \
+                          stream->next_in == OLD(stream->next_in) + (O_AIN - stream->avail_in) &&  \
+                          stream->total_in == O_TIN + (O_AIN - stream->avail_in))                  \
+        __CPROVER_ensures(stream->avail_out <= O_AVAIL && ADV_IS(O_AVAIL - stream->avail_out))     \
+        __CPROVER_ensures(BB_WF(BB) && ST.has_eob_hdr <= 1)                                        \
+        /* ZSTATE_END is reached only through the trailer */                                       \
+        __CPROVER_ensures(ST.state == ZSTATE_END ==> ST.has_eob_hdr == 1)
+
+/* =====================================================================================================
+ * isal_deflate_stateless (C10): the output-space contract of one-shot compression.
+ *   SL_BOUND = input + 5 bytes per started 65535-byte stored block (at least one) + wrapper header/trailer
+ * igzip_lib.h: "Max expansion is limited to the input size plus the header size of a stored/raw block."
+ * The compression attempt itself (isal_deflate_int_stateless -> NASM kernels) is an ASSUMED contract that
+ * records the space it was offered (w_cap) and returns an unconstrained verdict g_int_ret:
+ *   - invalid flush / level / level buffer: error code, nothing produced, no attempt made
+ *     (igzip_lib.h: for level 1 a missing level_buf is allowed in the one-shot call);
+ *   - the attempt is offered exactly min(avail_out, SL_BOUND) bytes, so a successful attempt never
+ *     produces more than SL_BOUND; the space beyond the cap is given back;
+ *   - attempt failed and avail_out < SL_BOUND: STATELESS_OVERFLOW;
+ *   - attempt failed and avail_out >= SL_BOUND: stored fallback -- harness variant B.
+ * ===================================================================================================== */
+extern uint32_t w_int_calls, w_cap, g_int_ret;
+#define SL_WRAP(gz)                                                                                \
+        ((gz) == IGZIP_GZIP ? 18u                                                                  \
+                            : ((gz) == IGZIP_GZIP_NO_HDR                                           \
+                                       ? 8u                                                        \
+                                       : ((gz) == IGZIP_ZLIB ? 6u : ((gz) == IGZIP_ZLIB_NO_HDR ? 4u : 0u))))
+#define SL_BOUND_OF(n, gz) (SPEC_STORED_LEN(n) + SL_WRAP(gz))
+#define SL_BOUND SL_BOUND_OF(O_AIN, O_GZ)
+#define SL_FLUSH_OK (O_FLUSH == NO_FLUSH || O_FLUSH == FULL_FLUSH)
+#define SL_LVL_OK                                                                                  \
+        (SPEC_LEVEL_OK(O_LVL, OLD(stream->level_buf), OLD(stream->level_buf_size)) ||              \
+         (O_LVL == 1 && OLD(stream->level_buf) == NULL))
+#define SL_VALID (SL_FLUSH_OK && SL_LVL_OK)
+#define SL_CALLS (w_int_calls - OLD(w_int_calls))
+#define SL_PRODUCED (stream->total_out - O_TOTAL)
+#define C_isal_deflate_int_stateless                                                               \
+        __CPROVER_assigns(stream->next_out, stream->avail_out, stream->total_out, stream->next_in, \
+                          stream->avail_in, stream->total_in, stream->gzip_flag, ST.state,         \
+                          ST.has_wrap_hdr, ST.has_eob_hdr, ST.has_eob, ST.has_hist, BB, ST.crc,    \
+                          ST.count, ST.block_next, ST.block_end, ST.has_level_buf_init, w_int_calls, \
+                          w_cap)                                                                   \
+        __CPROVER_ensures(w_int_calls == OLD(w_int_calls) + 1 && w_cap == OLD(stream->avail_out))  \
+        __CPROVER_ensures(RET == (int) g_int_ret && (RET == COMP_OK || RET == STATELESS_OVERFLOW))  \
+        __CPROVER_ensures(stream->avail_out <= OLD(stream->avail_out) &&                           \
+                          stream->next_out == OLD(stream->next_out) + (OLD(stream->avail_out) - stream->avail_out) && \
+                          stream->total_out == OLD(stream->total_out) + (OLD(stream->avail_out) - stream->avail_out)) \
+        __CPROVER_ensures(stream->avail_in <= OLD(stream->avail_in))                               \
+        __CPROVER_ensures(RET == COMP_OK ==>                                                       \
+                          (ST.state == ZSTATE_END ||                                               \
+                           (ST.state == ZSTATE_NEW_HDR && stream->flush == FULL_FLUSH)))
+extern int g_lb_present;
+#if defined(DF_SL_A)
+/* variant A: every path except the stored fallback */
+#define SL_SHAPE                                                                                   \
+        __CPROVER_requires((int) g_int_ret == COMP_OK ||                                           \
+                           (stream->flush != FULL_FLUSH &&                                         \
+                            stream->avail_out < SL_BOUND_OF(stream->avail_in, stream->gzip_flag)))
+#elif defined(DF_SL_B)
+/* variant B (bounded stand-in): the stored fallback itself -- attempt failed, space >= SL_BOUND -- for
+ * level 0 and at most two stored blocks of input */
+#define SL_SHAPE                                                                                   \
+        __CPROVER_requires((int) g_int_ret != COMP_OK && stream->level == 0 &&                     \
+                           stream->avail_in <= 2 * 65535u &&                                       \
+                           stream->avail_out >= SL_BOUND_OF(stream->avail_in, stream->gzip_flag) && \
+                           stream->gzip_flag <= IGZIP_ZLIB_NO_HDR && stream->hist_bits <= 15 &&    \
+                           ((stream->gzip_flag == IGZIP_ZLIB || stream->gzip_flag == IGZIP_ZLIB_NO_HDR) ==> 1))
+#else
+#define SL_SHAPE
+#endif
+#define SL_TRL (TR_GZ ? 8u : (TR_ZL ? 4u : 0u))
+#define SL_FB (SL_VALID && (int) g_int_ret != COMP_OK && O_AVAIL >= SL_BOUND)
+#define C_isal_deflate_stateless                                                                   \
+        __CPROVER_requires(__CPROVER_is_fresh(stream, sizeof(*stream)))                            \
+        __CPROVER_requires((RMH_LVLN && g_lb_present) ==>                                          \
+                           __CPROVER_is_fresh(stream->level_buf, SPEC_LVL_MIN(stream->level)))     \
+        __CPROVER_requires(!(RMH_LVLN && g_lb_present) ==> stream->level_buf == NULL)              \
+        /* avail_in >= 2^31: `2 * avail_in` wraps and `1 << bsr(avail_in)` shifts an int by 32 (undefined; \
+         * reported as a finding) -- excluded here so that the rest is decided */                  \
+        __CPROVER_requires(stream->avail_in <= 0x7fffffffu)                                        \
+        __CPROVER_requires(__CPROVER_is_fresh(stream->next_in, stream->avail_in))                  \
+        __CPROVER_requires(__CPROVER_is_fresh(stream->next_out, stream->avail_out))                \
+        SL_SHAPE                                                                                   \
+        __CPROVER_assigns(__CPROVER_object_whole(stream), __CPROVER_object_whole(stream->next_out), \
+                          w_int_calls, w_cap, w_crc_init, w_crc_len, w_crc_buf, w_crc_calls,       \
+                          w_ad_init, w_ad_len, w_ad_buf, w_ad_calls;                               \
+                          RMH_LVLN && g_lb_present: __CPROVER_object_whole(stream->level_buf)) \
+        __CPROVER_ensures(!SL_FLUSH_OK ==> RET == INVALID_FLUSH)                                   \
+        __CPROVER_ensures((SL_FLUSH_OK && !SL_LVL_OK) ==>                                          \
+                          (RET == ISAL_INVALID_LEVEL || RET == ISAL_INVALID_LEVEL_BUF))            \
+        /* rejected: nothing produced, no attempt */                                               \
+        __CPROVER_ensures(!SL_VALID ==> (ADV_IS(0) && SL_CALLS == 0))                              \
+        /* the attempt is offered exactly min(avail_out, SL_BOUND) */                              \
+        __CPROVER_ensures(SL_VALID ==>                                                             \
+                          (SL_CALLS == 1 && w_cap == (O_AVAIL >= SL_BOUND ? (uint32_t) SL_BOUND : O_AVAIL))) \
+        __CPROVER_ensures((SL_VALID && (int) g_int_ret == COMP_OK) ==>                             \
+                          (RET == COMP_OK && SL_PRODUCED <= w_cap && ADV_IS(SL_PRODUCED)))         \
+        __CPROVER_ensures((SL_VALID && (int) g_int_ret != COMP_OK && O_AVAIL < SL_BOUND) ==>       \
+                          RET == STATELESS_OVERFLOW)                                               \
+        __CPROVER_ensures((SL_VALID && O_FLUSH == NO_FLUSH) ==> stream->end_of_stream == 1)       \
+        /* stored fallback: succeeds, consumes everything, produces exactly the bound (less the     \
+         * trailer when the stream is not ended by this call) */                                   \
+        __CPROVER_ensures(SL_FB ==> (RET == COMP_OK && stream->avail_in == 0 &&                    \
+                                     stream->next_in == OLD(stream->next_in) + O_AIN &&            \
+                                     stream->total_in == O_TIN + O_AIN))                           \
+        __CPROVER_ensures(SL_FB ==> (ADV_IS(SL_PRODUCED) &&                                        \
+                                     SL_PRODUCED == SL_BOUND - (stream->end_of_stream ? 0u : SL_TRL))) \
+        __CPROVER_ensures((SL_FB && stream->end_of_stream) ==> ST.state == ZSTATE_END)             \
+        __CPROVER_ensures((SL_FB && !stream->end_of_stream) ==>                                    \
+                          (ST.state == ZSTATE_NEW_HDR && BB.m_bit_count == 0))
+
+/* =====================================================================================================
+ * Block header of the one-shot level-0 path (C10/C01): the table's stored header -- deflate_hdr_count whole
+ * bytes plus deflate_hdr_extra_bits bits, stored as a *final* block header (BFINAL = 1, HT_FINAL) -- is
+ * appended to the pending bits; BFINAL is cleared unless this call ends the stream.
+ *   - not enough space: STATELESS_OVERFLOW and nothing is produced;
+ *   - otherwise the logical bit string (bytes out || pending bits) grows by exactly the header's bits:
+ *     8 * bytes produced + pending' == pending + 8 * deflate_hdr_count + deflate_hdr_extra_bits,
+ *     the BFINAL bit that went out is 1 iff end_of_stream, has_eob_hdr follows it, state BODY;
+ *   - every write_bits call keeps pending + count <= 63 (E_write_bits).
+ * ===================================================================================================== */
+#define HT stream->hufftables
+#define HT_FINAL(h) ((((h)->deflate_hdr_count > 0 ? (h)->deflate_hdr[0] : (h)->deflate_hdr[(h)->deflate_hdr_count]) & 1) == 1)
+#define DH_PRE                                                                                     \
+        __CPROVER_requires(__CPROVER_is_fresh(stream, sizeof(*stream)))                            \
+        __CPROVER_requires(__CPROVER_is_fresh(HT, sizeof(struct isal_hufftables)) && HT_WF(HT) &&  \
+                           HT_FINAL(HT) && (HT->deflate_hdr_count > 0 || HT->deflate_hdr_extra_bits > 0)) \
+        __CPROVER_requires(BB_WF(BB))                                                              \
+        __CPROVER_requires(ST.state == ZSTATE_NEW_HDR || ST.state == ZSTATE_HDR)                   \
+        __CPROVER_requires(__CPROVER_is_fresh(stream->next_out, stream->avail_out))
+#define DH_ADV (O_AVAIL - stream->avail_out)
+#define DH_COMMON_POST                                                                             \
+        __CPROVER_ensures(RET == COMP_OK || RET == STATELESS_OVERFLOW)                             \
+        __CPROVER_ensures(RET == STATELESS_OVERFLOW ==>                                            \
+                          (ADV_IS(0) && (uint32_t) ST.state == O_ST && ST.has_eob_hdr == O_EOBH && \
+                           BB.m_bits == O_BITS && BB.m_bit_count == O_BC))                         \
+        __CPROVER_ensures(RET == COMP_OK ==>                                                       \
+                          (stream->avail_out <= O_AVAIL && ADV_IS(DH_ADV) && ST.state == ZSTATE_BODY && \
+                           BB.m_bit_count < 8 &&                                                   \
+                           8 * (uint64_t) DH_ADV + BB.m_bit_count ==                               \
+                                   (uint64_t) O_BC + 8 * (uint64_t) HT->deflate_hdr_count +        \
+                                           HT->deflate_hdr_extra_bits &&                           \
+                           ST.has_eob_hdr == (stream->end_of_stream ? 1 : O_EOBH)))
+/* aligned case (no pending bits): whole bytes are copied, the extra bits stay pending */
+#define C_write_deflate_header_stateless                                                           \
+        DH_PRE                                                                                     \
+        __CPROVER_requires(BB.m_bit_count == 0)                                                    \
+        __CPROVER_assigns(stream->next_out, stream->avail_out, stream->total_out, BB, ST.state,    \
+                          ST.has_eob_hdr, __CPROVER_object_whole(stream->next_out))                \
+        DH_COMMON_POST                                                                             \
+        __CPROVER_ensures((RET == STATELESS_OVERFLOW) == (HT->deflate_hdr_count + 8 >= O_AVAIL))   \
+        __CPROVER_ensures((RET == COMP_OK && g_k < HT->deflate_hdr_count) ==>                      \
+                          OUT0[g_k] == (uint8_t) (HT->deflate_hdr[g_k] ^                           \
+                                                  ((g_k == 0 && !stream->end_of_stream) ? 1 : 0))) \
+        __CPROVER_ensures(RET == COMP_OK ==>                                                       \
+                          BB.m_bits == ((uint64_t) HT->deflate_hdr[HT->deflate_hdr_count] ^        \
+                                        ((HT->deflate_hdr_count == 0 && !stream->end_of_stream) ? 1 : 0)))
+/* unaligned case.  The loop runs deflate_hdr_count / 8 times (<= 40); this harness is the bounded
+ * stand-in deflate_hdr_count <= DH_MAXCNT with the loop unrolled.  The header tail is written by
+ * write_bits(56 bits) + write_bits(rest): both stay within 63 bits with up to 7 bits pending. */
+#ifndef DH_MAXCNT
+#define DH_MAXCNT 31
+#endif
+/* one harness per number of pending bits (-DDH_BC=1..7; 0 is the aligned function): with the bit count
+ * fixed every store of the bit writer is at a constant offset, which keeps the encoding small */
+#ifdef DH_BC
+#define DH_BC_SPLIT __CPROVER_requires(BB.m_bit_count == DH_BC)
+#else
+#define DH_BC_SPLIT
+#endif
+#define C_write_deflate_header_unaligned_stateless                                                 \
+        DH_PRE                                                                                     \
+        __CPROVER_requires(HT->deflate_hdr_count <= DH_MAXCNT)                                     \
+        DH_BC_SPLIT                                                                                \
+        __CPROVER_assigns(stream->next_out, stream->avail_out, stream->total_out, BB, ST.state,    \
+                          ST.has_eob_hdr, __CPROVER_object_whole(stream->next_out))                \
+        DH_COMMON_POST                                                                             \
+        __CPROVER_ensures((HT->deflate_hdr_count + 16 < O_AVAIL) ==> RET == COMP_OK)               \
+        /* the BFINAL bit sits right after the bits that were pending */                           \
+        __CPROVER_ensures((RET == COMP_OK && O_BC != 0 && DH_ADV >= 1) ==>                         \
+                          (((OUT0[0] >> O_BC) & 1) == (stream->end_of_stream ? 1 : 0) &&           \
+                           (OUT0[0] & ((1u << O_BC) - 1)) == (uint8_t) O_BITS))                    \
+        __CPROVER_ensures((RET == COMP_OK && O_BC != 0 && DH_ADV == 0) ==>                         \
+                          (((BB.m_bits >> O_BC) & 1) == (stream->end_of_stream ? 1 : 0) &&         \
+                           (BB.m_bits & ((1u << O_BC) - 1)) == O_BITS))
+
+/* =====================================================================================================
+ * write_constant_compressed_stateless (C10/C11): a run of `repeated_length` equal bytes (0x00 or 0xff)
+ * at next_in is emitted as one pre-computed dynamic block.
+ *   - needs HEADER_LENGTH + MAX_FIXUP_CODE_LENGTH + rep_bytes + 8 bytes of space; with less, nothing at
+ *     all changes (no input consumed, no output produced, no checksum call);
+ *   - otherwise exactly the run is consumed: next_in / avail_in / total_in / block_end advance by
+ *     repeated_length, the output counters move together and stay within the space required above,
+ *     and -- when a wrapper is selected -- the running checksum is updated exactly once, over exactly
+ *     (old next_in, repeated_length);
+ *   - the block is marked final (state TRL, has_eob_hdr, has_eob) iff it ends the stream.
+ * write_bits is used through its (coarse) contract: every call keeps pending + count <= 63 and has 8
+ * writable bytes at m_out_buf; the loops run at most 11 times (rep_extra < 258) and are unrolled.
+ * ===================================================================================================== */
+#define CC_REPBYTES ((((repeated_length - 1) / 258) * 2) / 8)
+#define CC_NEED (16u + 8u + CC_REPBYTES + 8u)
+#define CC_FITS (O_AVAIL >= CC_NEED)
+#define CC_FINAL (O_AIN == repeated_length && O_EOS > 0)
+#define C_write_constant_compressed_stateless                                                      \
+        __CPROVER_requires(__CPROVER_is_fresh(stream, sizeof(*stream)))                            \
+        __CPROVER_requires(repeated_length >= 1 && repeated_length <= stream->avail_in)            \
+        __CPROVER_requires(stream->end_of_stream <= 1)                                             \
+        __CPROVER_requires(__CPROVER_is_fresh(stream->next_in, stream->avail_in))                  \
+        __CPROVER_requires(__CPROVER_is_fresh(stream->next_out, stream->avail_out))                \
+        __CPROVER_requires((stream->gzip_flag == IGZIP_ZLIB || stream->gzip_flag == IGZIP_ZLIB_NO_HDR) ==> \
+                           (ST.crc & 0xffff) < 65521)                                              \
+        __CPROVER_assigns(stream->next_in, stream->avail_in, stream->total_in, stream->next_out,   \
+                          stream->avail_out, stream->total_out, ST.state, ST.has_eob_hdr,          \
+                          ST.has_eob, ST.block_end, BB, ST.crc, w_crc_init, w_crc_len, w_crc_buf,  \
+                          w_crc_calls, w_ad_init, w_ad_len, w_ad_buf, w_ad_calls,                  \
+                          __CPROVER_object_whole(stream->next_out))                                \
+        __CPROVER_ensures(!CC_FITS ==>                                                             \
+                          (ADV_IS(0) && stream->next_in == OLD(stream->next_in) &&                 \
+                           stream->avail_in == O_AIN && stream->total_in == O_TIN &&               \
+                           ST.block_end == O_BE && (uint32_t) ST.state == O_ST && ST.crc == O_CRC && \
+                           CK_CRC_CALLS == 0 && CK_AD_CALLS == 0))                                 \
+        __CPROVER_ensures(CC_FITS ==>                                                              \
+                          (stream->next_in == OLD(stream->next_in) + repeated_length &&            \
+                           stream->avail_in == O_AIN - repeated_length &&                          \
+                           stream->total_in == O_TIN + repeated_length &&                          \
+                           ST.block_end == O_BE + repeated_length))                                \
+        __CPROVER_ensures(CC_FITS ==>                                                              \
+                          (stream->avail_out <= O_AVAIL && ADV_IS(O_AVAIL - stream->avail_out) &&  \
+                           O_AVAIL - stream->avail_out <= CC_NEED &&                               \
+                           O_AVAIL - stream->avail_out >= 16u + CC_REPBYTES))                      \
+        __CPROVER_ensures(CC_FITS ==>                                                              \
+                          (ST.state == (CC_FINAL ? ZSTATE_TRL : ZSTATE_NEW_HDR) &&                 \
+                           (CC_FINAL ==> (ST.has_eob_hdr == 1 && ST.has_eob == 1)) &&              \
+                           (OUT0[0] & 1) == (CC_FINAL ? 1 : 0)))                                   \
+        /* checksum over exactly the consumed run */                                               \
+        __CPROVER_ensures((CC_FITS && TR_GZ) ==>                                                   \
+                          (CK_CRC_CALLS == 1 && CK_AD_CALLS == 0 && w_crc_init == O_CRC &&         \
+                           w_crc_buf == OLD(stream->next_in) && w_crc_len == repeated_length &&    \
+                           ST.crc == g_crc_ret))                                                   \
+        __CPROVER_ensures((CC_FITS && TR_ZL) ==>                                                   \
+                          (CK_CRC_CALLS == 0 && CK_AD_CALLS == 1 && w_ad_buf == OLD(stream->next_in) && \
+                           w_ad_len == repeated_length && w_ad_init == SPEC_ADLER_FIN(O_CRC)))     \
+        __CPROVER_ensures((CC_FITS && !TR_GZ && !TR_ZL) ==> (CK_CRC_CALLS == 0 && CK_AD_CALLS == 0))
+
+/* Variant A of the isal_deflate_stateless harness decides every path that does not enter the stored
+ * fallback and does not reset the match history.  The helpers of those excluded paths are given the
+ * contract "never called" -- requires(false) -- so that their unreachability is itself an obligation
+ * (precondition check at each call site) instead of an unstated assumption, and their bodies do not
+ * have to be encoded. */
+#if defined(DF_SL_A)
+#define DF_UNREACHED __CPROVER_requires(0) __CPROVER_assigns()
+#undef C_write_stored_block
+#define C_write_stored_block DF_UNREACHED
+#undef C_write_trailer
+#define C_write_trailer DF_UNREACHED
+#undef C_write_stream_header_stateless
+#define C_write_stream_header_stateless DF_UNREACHED
+#undef C_update_checksum
+#define C_update_checksum DF_UNREACHED
+#undef C_reset_match_history
+#define C_reset_match_history DF_UNREACHED
+#endif
 
 #endif
